@@ -81,11 +81,14 @@ class _MergeStrategy(Object):  # type: ignore[misc]
     def __handle_update(self) -> Iterator[None]:
         """A context manager to handle the update vs merge."""
         # Pass the update switch to _SchemaNode.
+        previous_update = self.node_class.update
         self.node_class.update = self.update
         yield
-        # Reset to the merge behavior because _SchemaNode may be used by other instances
-        # that should merge.
-        self.node_class.update = False
+        # Reset to the behavior of the enclosing object, if any, such that the properties
+        # processed after a nested object are still updated,
+        # otherwise to the merge behavior because _SchemaNode may be used by other
+        # instances that should merge.
+        self.node_class.update = previous_update
 
     def add_schema(self, schema: StrKeyMapping) -> None:
         with self.__handle_update():
